@@ -1,180 +1,307 @@
 """C20 - string width measurement is consistent (the statically decidable clauses).
 
-R20.1 unit conversions are exact multiples of one another (linear forms of the lambdas);
-R20.2 number<->name maps are inverse, cover 1..10 and resolve to one font file each;
-R20.3 font and unit membership checks dominate every return and raise ValueError;
-R20.4 the requested size reaches the font loader unmodified (no rounding/snapping, no memoised
-loader keyed on a coarser size), the measured text is the argument itself.
-Not decided here (properties of Pillow/FreeType on the bundled fonts): 0 for '', non-negativity,
-monotonicity under appending, 1% scaling, monospace advance.
+get_string_width's syntax tree is interpreted (model interpreter, sa/rules/c17.py) with a model font loader:
+ImageFont.truetype(path, size) records what it is asked to load and returns a font whose getlength(text) records the
+measured text and returns a generic pixel width W.  Observed:
+
+R20.1 for every unit the result is the exact conversion of W: px = W, in = W / dpi, mm = W / dpi * 25.4, for several dpi,
+      also when the same string is measured again at another dpi (stale memoised results);
+R20.2 the number<->name maps are inverse, cover 1..10, agree with the emitted font table, and a font given by number or by
+      name loads the same font file and gives the same result;
+R20.3 unsupported font numbers / names / units raise ValueError, whatever the text (also the empty string);
+R20.4 the font is loaded at the requested size itself (or, for Pillow < 10 only, its ceiling) and the measured string is
+      the text argument itself.
+Not decided here (properties of Pillow/FreeType on the bundled fonts): 0 for '', non-negativity, monotonicity under
+appending, 1% scaling, monospace advance.
 """
 from __future__ import annotations
 
-import ast
+import math
 
-from ..absint import NOC
-from ..cfg import CFG, own_parts
-from ..consteval import const_call, const_expr
-from ..linform import linform
-from ..pm import AnalysisError, dotted, unparse, walk_no_nested
+from ..pm import AnalysisError
 from ..report import Ctx
+from .c17 import ExtRef, Interp, Unknown, Unsupported, _Model, is_artefact, interp_pm, cover, METHOD, run_valuations
+
+UNITS = {"px": lambda w, dpi: w, "in": lambda w, dpi: w / dpi, "mm": lambda w, dpi: w / dpi * 25.4}
+
+
+class _Res(_Model):
+    """importlib.resources.files(package): a traversable supporting `/` and str()"""
+
+    def __init__(self, s="<pkg:rtflite.fonts>"):
+        self.s = s
+
+    def __truediv__(self, o):
+        if not isinstance(o, str):
+            raise Unsupported(f"resource path joined with {o!r}")
+        return _Res(self.s + "/" + o)
+
+    def joinpath(self, *o):
+        r = self
+        for x in o:
+            r = r / x
+        return r
+
+    def __str__(self):
+        return self.s
+
+    def __fspath__(self):
+        return self.s
+
+    def __enter__(self):
+        return self
+
+    def __exit__(self, *a):
+        return False
+
+
+class _Font(_Model):
+    def __init__(self, world, path, size):
+        self.world, self.path, self.size = world, path, size
+
+    def getlength(self, text, *a, **k):
+        if not isinstance(text, str):
+            raise Unsupported(f"getlength of {text!r}")
+        self.world.measured.append((self.path, self.size, text))
+        return self.world.width(self.path, self.size, text)
+
+    def getbbox(self, text, *a, **k):
+        w = self.getlength(text)
+        return (0, 0, w, float(self.size))
+
+
+class World:
+    """model of Pillow's font loader and of importlib.resources"""
+
+    def __init__(self, pm):
+        self.it = Interp(pm)
+        self.loads, self.measured = [], []
+        w = self
+
+        class ImageFontModel(_Model):
+            def truetype(self, font=None, size=10, *a, **k):
+                if isinstance(size, (Unknown, ExtRef)) or isinstance(font, (Unknown, ExtRef)):
+                    raise Unsupported("font loaded with unknown path/size")
+                w.loads.append((str(font), size))
+                return _Font(w, str(font), size)
+            FreeTypeFont = _Font
+        self.it.externals.update({
+            "PIL.ImageFont": ImageFontModel(), "PIL.__version__": Unknown("PIL.__version__"),
+            "importlib.resources.files": lambda *a, **k: _Res(), "importlib.resources.as_file": lambda r: r,
+            "importlib_resources.files": lambda *a, **k: _Res(),
+        })
+
+    @staticmethod
+    def width(path, size, text):
+        # a generic positive width: depends on every argument, no special structure
+        h = sum((i + 3) * ord(c) for i, c in enumerate(text)) % 977
+        return 17.03125 + float(size) * (len(text) * 0.53125 + h / 1024.0) + (sum(map(ord, path)) % 89) / 64.0
+
+
+def _close(a, b) -> bool:
+    return isinstance(a, (int, float)) and not isinstance(a, bool) and math.isclose(a, b, rel_tol=1e-12, abs_tol=1e-12)
+
+
+def _exc(o) -> str:
+    return o[1].cls.mro_names()[0] if o[0] == "raise" and o[1].cls is not None else ""
 
 
 def check(ctx: Ctx) -> None:
-    pm = ctx.pm
+    pm = interp_pm(ctx.pm)
     ctx.explain(
-        "R20.1 the three unit lambdas normalise to px = x, in = x/dpi, mm = 25.4·x/dpi (linear forms), so results are exact "
-        "multiples; R20.2 the name->number and number->name maps are mutually inverse, cover 1..10, and number and name resolve "
-        "to the same font file; R20.3 on the CFG of get_string_width every return is dominated by the font-number, font-name "
-        "and unit membership tests, whose failing branches raise ValueError; R20.4 the size handed to ImageFont.truetype is "
-        "font_size itself (or the documented Pillow<10 ceiling), the text handed to getlength is the text argument, no "
-        "memoisation. Clauses about the numeric result of FreeType's getlength are not decidable from rtflite's source.")
+        "get_string_width is interpreted with a model font loader (truetype records path and size, getlength records the text and "
+        "returns a generic width W). R20.1 results are W, W/dpi, 25.4·W/dpi for px/in/mm at several dpi, also on re-measuring at "
+        "another dpi; R20.2 the name->number and number->name maps are mutually inverse, cover 1..10, agree with the font table, "
+        "and number and name load the same font file with the same result; R20.3 unsupported font numbers, names and units raise "
+        "ValueError for any text; R20.4 the size handed to the loader is font_size itself (or its ceiling in the Pillow<10 branch) "
+        "and the measured string is the text argument. Clauses about the numeric result of FreeType's getlength are not decidable "
+        "from rtflite's source.")
     ctx.assume("Pillow's FreeTypeFont.getlength is deterministic, additive enough and scale-linear for the bundled fonts (not analysed)")
     for c in ("0 for the empty string", "non-negativity", "monotonicity under appending", "width scales with size within 1%", "monospace advance equality"):
         ctx.undecided(c + " (property of Pillow/FreeType on the bundled fonts)")
+    ctx.explain("Method: " + METHOD + ". The pixel width returned by the model font is a concrete generic number depending on font file, size and "
+                "text; the only unknown is the Pillow version (both branches enumerated). Decided for: all fonts of the number->name map by number "
+                "and by name, units px/in/mm at dpi 72/96/300/36/600 including re-measurement in one process, 6 unsupported fonts and 4 unsupported "
+                "units with empty and non-empty text, font sizes 12/9.5/10.4/7.25/23.9 (counts in coverage.interpretation).")
+    ctx.assume("ImageFont.truetype / FreeTypeFont.getlength and importlib.resources are models that record their arguments; no font file is opened")
+    ctx.undecided("dpi, sizes, strings and unsupported fonts/units other than the listed samples (the conversion clauses are decided on samples of a "
+                  "straight-line computation, not symbolically)")
+    stats = {"sequences": 0, "calls": 0, "forks": 0}
     fi = pm.func("get_string_width")
-    # ---- R20.1
-    conv = None
-    for a in walk_no_nested(fi.node):
-        if isinstance(a, ast.Assign) and unparse(a.targets[0]) == "conversions" and isinstance(a.value, ast.Dict):
-            conv = a.value
-    if conv is None:
-        ctx.violation("R20.1", fi.short, "no conversions table", fi.where(), "unit conversions are no longer a table of per-unit functions")
-    else:
-        want = {"px": "x", "in": "x / dpi", "mm": "x / dpi * 25.4"}
-        got = {}
-        for k, v in zip(conv.keys, conv.values):
-            key = k.value if isinstance(k, ast.Constant) else unparse(k)
-            if isinstance(v, ast.Lambda) and len(v.args.args) == 1:
-                arg = v.args.args[0].arg
-                body = ast.parse(unparse(v.body).replace(arg, "x") if arg != "x" else unparse(v.body), mode="eval").body
-                got[key] = linform(body)
-            else:
-                got[key] = None
-        for unit, expr in want.items():
-            ref = linform(ast.parse(expr, mode="eval").body)
-            ok = got.get(unit) == ref
-            ctx.instance("R20.1", fi.where(conv), f"unit {unit!r}: {got.get(unit)} {'==' if ok else '!='} {ref}")
-            if not ok:
-                ctx.violation("R20.1", fi.short, f"unit {unit}: {got.get(unit)}", fi.where(conv), f"conversion for {unit!r} is not `{expr}`; results in different units are no longer exact conversions of one another")
-        for extra in set(got) - set(want):
-            ctx.violation("R20.1", fi.short, f"extra unit {extra}", fi.where(conv), f"undocumented unit {extra!r}")
-        rets = [r for r in walk_no_nested(fi.node) if isinstance(r, ast.Return) and r.value is not None]
-        final = [unparse(r.value) for r in rets]
-        ctx.instance("R20.1", fi.where(), f"returns {final}")
-        if final != ["conversions[unit](width_px)"]:
-            ctx.violation("R20.1", fi.short, "return " + str(final), fi.where(), "get_string_width does not return conversions[unit](measured pixel width) on every path")
-    # ---- R20.2
-    n2n = const_call(pm, "FontMapping.get_font_name_to_number_mapping")
-    num2 = const_call(pm, "FontMapping.get_font_number_to_name_mapping")
-    paths = const_call(pm, "FontMapping.get_font_paths")
-    table = const_call(pm, "FontMapping.get_font_table")
+    params = [a.arg for a in list(fi.node.args.posonlyargs) + list(fi.node.args.args)]
+    need = ["text", "font", "font_size", "unit", "dpi"]
+    if any(p not in params + [a.arg for a in fi.node.args.kwonlyargs] for p in need):
+        raise AnalysisError(f"get_string_width no longer takes the parameters {need}")
+
+    def calls(seq):
+        """run a sequence of get_string_width calls in one fresh model world, under every valuation of unknown conditions
+        (the Pillow version) -> [(valuation, [outcome per call], world)]"""
+        def make():
+            w = World(pm)
+            f = w.it.func_val(fi)
+
+            def thunk():
+                res = []
+                for kw in seq:
+                    n0 = len(w.loads), len(w.measured)
+                    o = w.it.outcome(lambda: w.it.call(f, [], dict(kw)))
+                    res.append((o, w.loads[n0[0]:], w.measured[n0[1]:]))
+                return res
+            return w.it, thunk, w
+        out = []
+        rv = run_valuations(make)
+        stats["sequences"] += 1
+        stats["calls"] += len(seq) * len(rv)
+        stats["forks"] += len(rv) - 1
+        for v, o, w in rv:
+            if o[0] != "return":
+                raise Unsupported(f"interpretation of get_string_width ended with {o[1]!r}")
+            out.append((v, o[1], w))
+        return out
+
+    def gap_if_artefact(rule, o, label) -> bool:
+        if o[0] == "raise" and is_artefact(o[1]):
+            ctx.gap(rule, f"{label}: interpretation ended with {o[1]!r} (possibly an artefact of the font-loader model)")
+            return True
+        return False
+
+    # ---- the font tables (R20.2, also the sample fonts for the other rules)
+    it0 = Interp(pm)
+
+    def table(short):
+        try:
+            return it0.outcome(lambda: it0.call(it0.func_val(pm.func(short)), [], {}))
+        except Unsupported as e:
+            ctx.gap("R20.2", f"{short} could not be evaluated: {e}")
+            return None
     f2 = pm.func("FontMapping.get_font_name_to_number_mapping")
-    if NOC in (n2n, num2, paths, table):
-        ctx.violation("R20.2", "FontMapping", "tables not constant", f2.where(), "font maps are no longer constant tables")
+    got = {k: table(f"FontMapping.{k}") for k in ("get_font_name_to_number_mapping", "get_font_number_to_name_mapping", "get_font_paths", "get_font_table")}
+    tables_ok = all(o is not None and o[0] == "return" and isinstance(o[1], dict) for o in got.values())
+    n2n = num2 = paths = ftab = None
+    if not tables_ok:
+        bad = [k for k, o in got.items() if o is not None and not (o[0] == "return" and isinstance(o[1], dict))]
+        if bad:
+            ctx.gap("R20.2", f"FontMapping.{bad[0]} does not evaluate to a mapping ({got[bad[0]]})")
     else:
+        n2n, num2, paths, ftab = (got[k][1] for k in ("get_font_name_to_number_mapping", "get_font_number_to_name_mapping", "get_font_paths", "get_font_table"))
         inv = {v: k for k, v in n2n.items()}
         ctx.instance("R20.2", f2.where(), f"name->number {len(n2n)} entries, number->name {len(num2)} entries, paths {len(paths)} entries")
-        if inv != num2 or len(inv) != len(n2n):
+        if inv != dict(num2) or len(inv) != len(n2n):
             ctx.violation("R20.2", "FontMapping", "maps not inverse", f2.where(), "number->name is not the inverse of name->number")
         if sorted(num2) != list(range(1, 11)):
             ctx.violation("R20.2", "FontMapping", f"numbers {sorted(num2)}", f2.where(), "font numbers are not exactly 1..10")
         for num, name in sorted(num2.items()):
-            ok = name in paths and table["name"][num - 1] == name and table["type"][num - 1] == num
+            try:
+                ok = name in paths and ftab["name"][num - 1] == name and ftab["type"][num - 1] == num
+            except (KeyError, IndexError, TypeError):
+                ok = False
             ctx.instance("R20.2", f2.where(), f"font {num} <-> {name!r} -> {paths.get(name)}; font table row agrees: {ok}")
             if not ok:
                 ctx.violation("R20.2", "FontMapping", f"font {num} {name}", f2.where(), f"font {num} ({name}) has no font file or disagrees with the emitted font table")
-    mod = pm.module("rtflite.strwidth")
-    srcs = {k: unparse(v) for k, v in mod.assigns.items() if k in ("_FONT_PATHS", "RTF_FONT_NUMBERS", "RTF_FONT_NAMES")}
-    want = {"_FONT_PATHS": "FontMapping.get_font_paths()", "RTF_FONT_NUMBERS": "FontMapping.get_font_name_to_number_mapping()",
-            "RTF_FONT_NAMES": "FontMapping.get_font_number_to_name_mapping()"}
-    for k, v in want.items():
-        ctx.instance("R20.2", mod.path + ":1", f"{k} = {srcs.get(k)}")
-        if srcs.get(k) != v:
-            ctx.violation("R20.2", "strwidth", f"{k} = {srcs.get(k)}", mod.path + ":1", f"strwidth.{k} is `{srcs.get(k)}`, expected {v}")
-    # ---- R20.3
-    g = CFG(fi.node)
-    dom = g.dominators(exceptional=False)
-    live = g.reachable(g.entry)
-    tests = {}
-    for nd in g.nodes:
-        if nd.kind == "test" and isinstance(nd.ast, ast.If) and id(nd) in live:
-            t = unparse(nd.ast.test)
-            raises = [s for s in nd.ast.body if isinstance(s, ast.Raise)]
-            if raises and isinstance(raises[0].exc, ast.Call):
-                tests[t] = (nd, dotted(raises[0].exc.func))
-    need = {"font number": "font not in RTF_FONT_NAMES", "font name": "font_name not in _FONT_PATHS", "unit": "unit not in conversions"}
-    ret_nodes = [nd for nd in g.nodes if isinstance(nd.ast, ast.Return) and id(nd) in live]
-    for label, t in need.items():
-        hit = tests.get(t)
-        ctx.instance("R20.3", fi.where(hit[0].ast) if hit else fi.where(), f"{label} check `{t}` -> raise {hit[1] if hit else 'MISSING'}")
-        if not hit:
-            ctx.violation("R20.3", fi.short, f"{label} check missing", fi.where(), f"unsupported {label} is no longer rejected by `{t}`")
-            continue
-        if hit[1] != "ValueError":
-            ctx.violation("R20.3", fi.short, f"{label} raises {hit[1]}", fi.where(hit[0].ast), f"unsupported {label} raises {hit[1]} instead of ValueError")
-        if label == "font number":
-            # guarded by isinstance(font, int): every return must be dominated by the isinstance test instead
-            outer = [nd for nd in g.nodes if nd.kind == "test" and isinstance(nd.ast, ast.If) and unparse(nd.ast.test) == "isinstance(font, int)" and id(nd) in live]
-            anchor = outer[0] if outer else None
-        else:
-            anchor = hit[0]
-        for r in ret_nodes:
-            if anchor is None or id(anchor) not in dom.get(id(r), set()):
-                ctx.violation("R20.3", fi.short, f"return before {label} check", fi.where(r.ast),
-                              f"`{unparse(r.ast)[:50]}` can be reached without the {label} check: an unsupported {label} returns a value instead of raising ValueError")
-    # ---- R20.4
-    for d in fi.decorators:
-        ctx.violation("R20.4", fi.short, "decorator " + d, fi.where(), f"get_string_width is wrapped by {d}")
-    tt = [c for c in walk_no_nested(fi.node) if isinstance(c, ast.Call) and dotted(c.func).endswith("truetype")]
-    from ..linform import single_assign_env
-    env = single_assign_env(fi.node)
-    size_expr = None
-    where_tt = fi.where()
-    if len(tt) == 1:
-        size_expr = next((k.value for k in tt[0].keywords if k.arg == "size"), tt[0].args[1] if len(tt[0].args) > 1 else None)
-        where_tt = fi.where(tt[0])
-    elif not tt:
-        # the loader may live in a helper called from here: follow one level
-        for c in walk_no_nested(fi.node):
-            if isinstance(c, ast.Call) and isinstance(c.func, ast.Name):
-                r = pm.resolve(fi.module, c.func.id)
-                if r and r[0] == "func":
-                    h = r[1]
-                    ht = [x for x in walk_no_nested(h.node) if isinstance(x, ast.Call) and dotted(x.func).endswith("truetype")]
-                    if len(ht) == 1:
-                        hs = next((k.value for k in ht[0].keywords if k.arg == "size"), ht[0].args[1] if len(ht[0].args) > 1 else None)
-                        ps = [a.arg for a in h.node.args.args]
-                        henv = single_assign_env(h.node)
-                        while isinstance(hs, ast.Name) and hs.id in henv and hs.id not in ps:
-                            hs = henv[hs.id]
-                        if isinstance(hs, ast.Name) and hs.id in ps:
-                            i = ps.index(hs.id)
-                            size_expr = c.args[i] if i < len(c.args) else next((k.value for k in c.keywords if k.arg == hs.id), None)
-                        else:
-                            size_expr = hs
-                        where_tt = fi.where(c)
-    if size_expr is None:
-        ctx.violation("R20.4", fi.short, f"truetype x{len(tt)}", fi.where(), "the size at which the font is loaded cannot be traced to font_size")
-    else:
-        size = size_expr
-        while isinstance(size, ast.Name) and size.id in env:
-            size = env[size.id]
-        txt = unparse(size)
-        ok = txt in ("font_size", "int(math.ceil(font_size)) if _PILLOW_REQUIRES_INT_SIZE else font_size")
-        ctx.instance("R20.4", where_tt, f"truetype size = `{txt}`")
-        if not ok:
-            ctx.violation("R20.4", fi.short, "size " + txt, where_tt, f"the font is loaded at `{txt}`, not at the requested font_size (width no longer scales with size)")
-    gl = [c for c in walk_no_nested(fi.node) if isinstance(c, ast.Call) and isinstance(c.func, ast.Attribute) and c.func.attr == "getlength"]
-    ok = len(gl) == 1 and len(gl[0].args) == 1 and unparse(gl[0].args[0]) == "text"
-    ctx.instance("R20.4", fi.where(), f"getlength argument: {unparse(gl[0].args[0]) if gl else '?'}")
-    if not ok:
-        ctx.violation("R20.4", fi.short, "measured text", fi.where(), "the measured string is not the text argument itself")
-    # reassignments of text / font_size before use
-    for nm in ("text", "font_size", "dpi"):
-        for a in walk_no_nested(fi.node):
-            if isinstance(a, (ast.Assign, ast.AugAssign)) and any(isinstance(t, ast.Name) and t.id == nm for t in (a.targets if isinstance(a, ast.Assign) else [a.target])):
-                ctx.violation("R20.4", fi.short, f"{nm} reassigned", fi.where(a), f"get_string_width modifies its `{nm}` argument before measuring")
+    fonts = sorted(num2.items()) if tables_ok else [(1, "Times New Roman"), (4, "Arial"), (9, "Courier New")]
+    base = {"text": "Hello, World", "font": fonts[0][1], "font_size": 12, "unit": "px", "dpi": 72.0}
+
+    # ---- R20.2 number and name give the same font file and the same result
+    for num, name in fonts:
+        for v, res, w in calls([{**base, "font": num, "unit": "in"}, {**base, "font": name, "unit": "in"}]):
+            (o1, _, m1), (o2, _, m2) = res
+            if gap_if_artefact("R20.2", o1, f"font {num}") or gap_if_artefact("R20.2", o2, f"font {name!r}"):
+                continue
+            l1, l2 = [(p, sz) for p, sz, _ in m1], [(p, sz) for p, sz, _ in m2]       # the font files the text was measured with
+            # a call that measured nothing itself was served from a memo filled by the other one: compare the results only
+            same = o1[0] == o2[0] == "return" and (not l1 or not l2 or [p for p, _ in l1] == [p for p, _ in l2]) and _close(o1[1], o2[1])
+            want_file = paths.get(name) if paths else None
+            used = l2 or l1
+            file_ok = want_file is None or not used or all(p.endswith("/" + want_file) or p == want_file for p, _ in used)
+            ctx.instance("R20.2", fi.where(), f"font {num} / {name!r}: measured with {sorted({p for p, _ in l1})} / {sorted({p for p, _ in l2})}, same result: {same}")
+            if o1[0] == "raise" or o2[0] == "raise":
+                ctx.violation("R20.2", fi.short, f"font {num}/{name} rejected", fi.where(),
+                              f"supported font {num} / {name!r} is rejected: {o1[1] if o1[0] == 'raise' else o2[1]!r}")
+            elif not same:
+                ctx.violation("R20.2", fi.short, f"font {num} differs from {name}", fi.where(),
+                              f"font number {num} is measured with {[p for p, _ in l1]} and returns {o1[1]!r}, font name {name!r} with {[p for p, _ in l2]} and returns {o2[1]!r}")
+            elif not file_ok:
+                ctx.violation("R20.2", fi.short, f"font {name} file", fi.where(), f"font {name!r} is measured with {[p for p, _ in used]}, the font map says {want_file!r}")
+    # ---- R20.1 unit conversions, several dpi, re-measured at another dpi in the same process
+    dpis = (72.0, 96.0, 300.0, 36.0)
+    for unit, conv in UNITS.items():
+        seq = [{**base, "unit": unit, "dpi": d} for d in dpis] + [{**base, "unit": unit, "dpi": 600.0, "font": fonts[0][0]}]
+        for v, res, w in calls(seq):
+            for kw, (o, loads, measured) in zip(seq, res):
+                label = f"unit {unit!r} at dpi {kw['dpi']}"
+                if gap_if_artefact("R20.1", o, label):
+                    continue
+                if o[0] == "raise":
+                    ctx.violation("R20.1", fi.short, f"unit {unit} rejected", fi.where(), f"{label}: supported unit raises {o[1]!r}")
+                    continue
+                # the pixel width measured for this call (or, if the call measured nothing itself, by the first call:
+                # same text, font and size throughout the sequence)
+                ref = (measured or w.measured)[:1]
+                if not ref:
+                    ctx.gap("R20.1", f"{label}: nothing was measured through a font loaded by ImageFont.truetype")
+                    continue
+                W = World.width(*ref[0])
+                exp = conv(W, kw["dpi"])
+                ok = _close(o[1], exp)
+                ctx.instance("R20.1", fi.where(), f"{label}: returns {o[1]!r}, exact conversion of the measured {W!r} px is {exp!r}: {ok}")
+                if not ok:
+                    ctx.violation("R20.1", fi.short, f"unit {unit}: not the exact conversion", fi.where(),
+                                  f"{label}: get_string_width returns {o[1]!r} but the measured pixel width {W!r} converts to {exp!r}; "
+                                  "results in different units / at different dpi are no longer exact conversions of one another")
+    # ---- R20.3 unsupported fonts / units raise ValueError, whatever the text
+    bad_fonts = [0, 11, -1, 99, "No Such Font", ""]
+    bad_units = ["cm", "pt", "", "IN"]
+    for text in ("Hello", ""):
+        for label, kw in [(f"font number {f}" if isinstance(f, int) else f"font name {f!r}", {"font": f}) for f in bad_fonts] + \
+                         [(f"unit {u!r}", {"unit": u}) for u in bad_units]:
+            kind = label.split(" ")[0] + " " + label.split(" ")[1] if label.startswith("font") else "unit"
+            for v, res, w in calls([{**base, "text": text, **kw}]):
+                o = res[0][0]
+                if gap_if_artefact("R20.3", o, label):
+                    continue
+                names = o[1].cls.mro_names() if o[0] == "raise" else []
+                ctx.instance("R20.3", fi.where(), f"unsupported {label}, text {text!r}: {o[0]} {names[:1] if names else repr(o[1])}")
+                if o[0] != "raise":
+                    ctx.violation("R20.3", fi.short, f"unsupported {kind} accepted" + (" for empty text" if text == "" else ""), fi.where(),
+                                  f"get_string_width({text!r}, {', '.join(f'{k}={x!r}' for k, x in kw.items())}) returns {o[1]!r} instead of raising ValueError")
+                elif "ValueError" not in names:
+                    ctx.violation("R20.3", fi.short, f"unsupported {kind} raises {names[0]}", fi.where(),
+                                  f"unsupported {label} raises {names[0]} instead of ValueError")
+    # ---- R20.4 requested size and text reach the loader unmodified
+    for size in (12, 9.5, 10.4, 7.25, 23.9):
+        text = "  width of this text  "
+        runs = calls([{**base, "text": text, "font_size": size}, {**base, "text": text.strip() + "!", "font_size": size}])
+        exact = []
+        for v, res, w in runs:
+            o, loads, measured = res[0]
+            if gap_if_artefact("R20.4", o, f"font_size {size}"):
+                continue
+            if o[0] == "raise":
+                ctx.violation("R20.4", fi.short, f"size {size} rejected", fi.where(), f"font_size {size} raises {o[1]!r}")
+                continue
+            sizes = [s for _, s, _ in measured]
+            measured = [t for _, _, t in measured]
+            ctx.instance("R20.4", fi.where(), f"font_size {size}: measured at size {sizes}, text {measured} (unknown conditions {v})")
+            if not sizes:
+                ctx.gap("R20.4", "nothing was measured through a font loaded by ImageFont.truetype")
+                continue
+            exact.append(all(s == size and (isinstance(s, float) or float(size).is_integer()) for s in sizes))
+            bad = [s for s in sizes if not (s == size or (s == math.ceil(size) and isinstance(s, int)))]
+            if bad:
+                ctx.violation("R20.4", fi.short, "size " + ("rounded" if any(float(b).is_integer() for b in bad) else "snapped"), fi.where(),
+                              f"for font_size {size} the font is loaded at {bad[0]!r}, not at the requested size (width no longer scales with size)")
+            if measured != [text]:
+                ctx.violation("R20.4", fi.short, "measured text", fi.where(), f"the measured string is {measured!r}, not the text argument itself ({text!r})")
+            o2, loads2, measured2 = res[1]
+            if o2[0] == "return" and [t for _, _, t in measured2] != [text.strip() + "!"]:
+                ctx.violation("R20.4", fi.short, "measured text", fi.where(), f"a second call measures {measured2!r} instead of its own text argument")
+        if exact and not any(exact):
+            ctx.violation("R20.4", fi.short, "size never exact", fi.where(), f"for font_size {size} no Pillow version gets the font at exactly the requested size")
+    cover(ctx, call_sequences=stats["sequences"], interpreted_calls=stats["calls"], forks_on_unknown_conditions=stats["forks"],
+          fonts=[list(x) for x in fonts], dpi=[72.0, 96.0, 300.0, 36.0, 600.0], font_sizes=[12, 9.5, 10.4, 7.25, 23.9],
+          unsupported_fonts=[repr(x) for x in bad_fonts], unsupported_units=bad_units,
+          fork_enumeration="all valuations of the unknown conditions consulted (Pillow version), at most 48 runs per sequence")
     ctx.floor("R20.1", 4)
     ctx.floor("R20.2", 13)
     ctx.floor("R20.3", 3)
+    ctx.floor("R20.4", 3)
